@@ -37,8 +37,11 @@ EXPLANATION = (
     'ref_node_interpolate_edge call of the REAL ref_split_pass passes the clamp of the raw weight and returns the modelled '
     'vertex. End-to-end: ref adapt on generated 3-D/2-D meshes judged by the domain oracle (volume, per-id area, bounding '
     'boxes, id set, planarity). '
-    'FINDING (stream cli_adapt_2d_ids, known finding): in 2-D no-CAD adaptation two edg ids meeting on a straight side are '
-    'not protected - ref_collapse_edge_geometry looks only at triangle ids - and coarsening removes a boundary id.')
+    'edg_separator_preserved / smoothEdge_separator_frozen / smoothTri_separator_frozen: a vertex where two different '
+    'edg (boundary-edge) ids meet is refused by ref_collapse_edge_geometry for every node0 and is frozen by the '
+    'no-geometry edge smoother (the two repairs 285dd96 / 36d5222 of the defect this check found: in 2-D all triangles '
+    'share one id, so the point separating two boundary ids on a straight side was unprotected); stream '
+    'cli_adapt_2d_ids keeps exercising exactly that scenario end to end.')
 
 ASSUMPTIONS = [
     'IEEE rounding in the numeric guards is modelled (Float instance, compared bit for bit through the decisions), not '
